@@ -529,6 +529,7 @@ def shards(tier):
         for di in range(len(DTYPES)):
             for ki in range(len(DIMS)):
                 out.append({'fam': 'B', 'x': x, 'dt': di, 'dims': ki})
+    out.append({'fam': 'N'})
     xs_c = [2] if tier == 'quick' else [0, 3]
     for x in xs_c:
         for di in range(len(DTYPES)):
@@ -548,6 +549,14 @@ def _mk(scheme, chs, frames, method, subset, fw, fmt):
 def cases_of(shard, tier):
     quick = tier == 'quick'
     fam = shard['fam']
+    if fam == 'N':
+        # every frame count of a range and round numbers beyond it (the writer may work in blocks of rows)
+        counts = list(range(1, 131)) + [150, 192, 200, 250, 256, 300, 384, 400, 500, 512, 1000, 1024] + ([] if quick else [2000, 2048, 4096, 5000, 10000])
+        for n in counts:
+            yield _mk(0, [('f8', (1,), 'idx'), ('f4', (1,), 3)], n, 'first', [], 16, '.3f')
+            if n % 5 == 0 or not quick:
+                yield _mk(0, [('i4', (1,), 'idx'), ('f8', (3,), 1), ('u1', (1,), 2)], n, 'mean', ['GR'], 8, '.0f')
+        return
     dt = DTYPES[shard['dt']]
     dims = DIMS[shard['dims']]
     nrot = n_rot(dt)
